@@ -1,5 +1,7 @@
 import CifModel.Lemmas.LadderMap
 import CifModel.Lemmas.LadderSummary
+import CifModel.Lemmas.LadderDeserTable
+import CifModel.Lemmas.LadderNamesNorm
 /-
   CifModel.Lemmas.LadderMapSummary — the map ladders in the form the property theorems of Props/C17Map restate.
 -/
@@ -108,6 +110,45 @@ theorem mapRemove_summary (k : Nat) (kind : MapKind) (m : MapSt) (keyNorm : Str)
       rw [hr] at hme; exact absurd hme NOSUCH_ne.1
 
 -- ---------------------------------------------------------------------------------------------------------------
+-- re-entry: sequences of calls on the same map, each with its own (single) fault position
+
+/-- one call on a map: set (repaired cif_map_set_item) or remove, with the fault position of that call -/
+inductive MapOp
+  | set (failAt : Nat) (key keyNorm : Str) (value : Option Shape)
+  | remove (failAt : Nat) (keyNorm : Str) (keep : Bool)
+
+/-- run the calls one after the other on the same map; `handed` collects what removals handed to the caller -/
+def runMapOps (kind : MapKind) : List MapOp → MapSt → St → List Nat → MapSt × St × List Nat
+  | [], m, s, handed => (m, s, handed)
+  | .set k key keyNorm value :: ops, m, s, handed =>
+    let r := mapSet true k kind m key keyNorm value s
+    runMapOps kind ops r.1.map r.2 handed
+  | .remove k keyNorm keep :: ops, m, s, handed =>
+    let r := mapRemove k kind m keyNorm keep s
+    runMapOps kind ops r.1.map r.2 (r.1.handed ++ handed)
+
+theorem mapSet_fixed_inv (k : Nat) (kind : MapKind) (m : MapSt) (key keyNorm : Str) (value : Option Shape) (s : St)
+    (L : List Nat) (h : Inv s (m.ids ++ L)) :
+    Inv (mapSet true k kind m key keyNorm value s).2 ((mapSet true k kind m key keyNorm value s).1.map.ids ++ L) := by
+  rcases mapSet_spec true k kind m key keyNorm value s L h with ⟨h1, _⟩ | ⟨hf, _⟩
+  · exact h1.2.2.1
+  · cases hf
+
+/-- the hypotheses of the from-any-state theorems are re-established by every call, faulted or not -/
+theorem runMapOps_inv (kind : MapKind) : ∀ (ops : List MapOp) (m : MapSt) (s : St) (handed L : List Nat),
+    Inv s (m.ids ++ (handed ++ L)) →
+    Inv (runMapOps kind ops m s handed).2.1
+      ((runMapOps kind ops m s handed).1.ids ++ ((runMapOps kind ops m s handed).2.2 ++ L))
+  | [], m, s, handed, L, h => h
+  | .set k key keyNorm value :: ops, m, s, handed, L, h => by
+    simp only [runMapOps]
+    exact runMapOps_inv kind ops _ _ handed L (mapSet_fixed_inv k kind m key keyNorm value s _ h)
+  | .remove k keyNorm keep :: ops, m, s, handed, L, h => by
+    simp only [runMapOps]
+    have h1 := (mapRemove_spec k kind m keyNorm keep s (handed ++ L) h).2.2.1
+    exact runMapOps_inv kind ops _ _ _ L (h1.perm (by perm_ac))
+
+-- ---------------------------------------------------------------------------------------------------------------
 -- cif_value_clone of a table
 
 theorem cloneTable_spec (fixed : Bool) (k : Nat) (src : List SrcEntry) (s : St) (L : List Nat) (h : Inv s L) :
@@ -179,5 +220,54 @@ theorem cloneTable_summary (fixed : Bool) (k : Nat) (src : List SrcEntry) :
       fun hx => absurd hx OK_ne_MEMORY_ERROR⟩
   · refine ⟨fun _ => ⟨e0, e1, (badE_init e4).2, obj, e5, by simpa using e6.1⟩, fun hf => ?_⟩
     rw [e2] at hf; cases hf
+
+-- ---------------------------------------------------------------------------------------------------------------
+-- table blobs, names with normalisation
+
+theorem deserTable_summary (k : Nat) (bes : List BlobEntry) :
+    Balanced (deserTable k bes).2.2.evs (match (deserTable k bes).2.1 with | some m => m.ids | none => []) ∧
+    ((deserTable k bes).1 = OK ∨ (deserTable k bes).1 = MEMORY_ERROR) ∧
+    ((deserTable k bes).1 = OK ↔ (deserTable k bes).2.1.isSome) ∧
+    ((deserTable k bes).1 = OK ↔ NoFail (deserTable k bes).2.2.evs) ∧
+    (∀ m, (deserTable k bes).2.1 = some m → m.entries.length = bes.length) := by
+  unfold deserTable
+  have hh := deserEntries_spec k bes {} {} [] (fun _ => rfl) (by simpa [MapSt.ids, mentriesIds] using Inv.nil)
+  generalize deserEntries k bes {} {} = r at hh ⊢
+  obtain ⟨ro, s'⟩ := r
+  rcases hh with ⟨m, h1, h2, h3, h4⟩ | ⟨h1, h2, h3⟩ <;> simp only at h1 h2 h3 <;> subst h1 <;> simp only
+  · obtain ⟨N, hN⟩ := h2
+    have g := good_init hN
+    exact ⟨by simpa using h3.1, .inl trivial, by simp, by simpa using g.2.2.1, fun m' hm => by cases hm; simpa using h4⟩
+  · obtain ⟨N, hN⟩ := h2
+    have b := bad_init hN
+    exact ⟨h3.1, .inr trivial, by simp [OK_ne_MEMORY_ERROR], by simpa [OK_ne_MEMORY_ERROR] using b.2.2.1, fun m' hm => by cases hm⟩
+
+theorem namesNorm_outcome (k n : Nat) :
+    Good k (namesNormAllocs n) {} (getNamesNorm k n).2.2 ∨ Bad k (namesNormAllocs n) {} (getNamesNorm k n).2.2 := by
+  rcases getNamesNorm_spec k n {} [] Inv.nil with h | h
+  · exact .inl h.2.1
+  · exact .inr h.2.2.1
+
+theorem namesNorm_summary (k n : Nat) :
+    Balanced (getNamesNorm k n).2.2.evs (getNamesNorm k n).2.1 ∧
+    ((getNamesNorm k n).1 = OK ∨ (getNamesNorm k n).1 = MEMORY_ERROR ∨ (n = 0 ∧ (getNamesNorm k n).1 = INVALID_HANDLE)) ∧
+    ((getNamesNorm k n).1 ≠ OK → (getNamesNorm k n).2.1 = []) ∧
+    (0 < n → ((getNamesNorm k n).1 = OK ↔ NoFail (getNamesNorm k n).2.2.evs)) ∧
+    ((getNamesNorm k n).1 = OK → (getNamesNorm k n).2.1.length = n + 1) := by
+  rcases getNamesNorm_spec k n {} [] Inv.nil with ⟨h1, h2, h3, h4⟩ | ⟨h1, h2, h3, h4⟩
+  · have g := good_init h2
+    by_cases hn : n = 0
+    · rw [if_pos hn] at h1
+      have hne : (getNamesNorm k n).1 ≠ OK := by rw [h1]; exact INVALID_HANDLE_ne_OK
+      have hlen : (getNamesNorm k n).2.1 = [] := by
+        apply List.eq_nil_of_length_eq_zero; rw [h3, hn]; rfl
+      exact ⟨by simpa using h4.1, .inr (.inr ⟨hn, h1⟩), fun _ => hlen, fun h => absurd hn (by omega), fun h => absurd h hne⟩
+    · rw [if_neg hn] at h1
+      refine ⟨by simpa using h4.1, .inl h1, fun h => absurd h1 h, fun _ => ⟨fun _ => g.2.2.1, fun _ => h1⟩, ?_⟩
+      intro _; rw [h3]; unfold namesNormAllocs; simp [hn]; omega
+  · have b := bad_init h3
+    have hne : (getNamesNorm k n).1 ≠ OK := by rw [h1]; exact OK_ne_MEMORY_ERROR
+    exact ⟨by rw [h2]; exact h4.1, .inr (.inl h1), fun _ => h2, fun _ => ⟨fun h => absurd h hne, fun h => absurd h b.2.2.1⟩,
+      fun h => absurd h hne⟩
 
 end CifModel.Lemmas.Ladder
